@@ -18,8 +18,8 @@ Modelling decisions (all part of the trusted base, see DESIGN section 6 item 6):
 * `scan` does not consult the local copy; `get_match` reads the server's SCAN pages through `get_many` (one page: the
   keyspace is smaller than `batch_size`); `get_expire` answers from the local copy when that holds a positive TTL, else asks
   the server and re-times the local entry with the answer (whole seconds).
-* `expire(k, 0)` is modelled as the code behaves (the local copy keeps the value — `Memory.expire` with 0 is "no new TTL" —
-  and is marked, the server deletes the key): the agreement theorem excludes it by a side condition, see Props/C20.lean.
+* `expire(k, 0)` (a timeout below 1 ms) is modelled as repaired (finding D37, in the code): the server deletes the key, so the
+  local copy gets the "known absent" marker and no echo mark, as in `delete`.
 -/
 namespace CashewsVerif.Redis.CS
 open CashewsVerif CashewsVerif.Redis
@@ -296,8 +296,10 @@ def step (st : St) : Op → St × ROut
       ((srvCmd st0 (.unlink (Ref.matching st.srv.ks pat))).1, .none_)     -- scan + unlink of the pages (C19)
     else ((srvCmd st0 (.unlink [pat])).1, .none_)
   | .expire i k ms =>
+    -- `if int(timeout * 1000) <= 0: await self._local_cache.set(key, _empty_in_redis); return await super().expire(…)` (D37)
     let c := st.cl i
-    let c' := match c.lfind (now st) k with
+    let c' := if ms = 0 then c.lset (now st) k .absent none else
+      match c.lfind (now st) k with
       | some ⟨.val _, _⟩ => (c.lexpire (now st) k ms).mark (now st) k
       | _ => c
     ((srvCmd { st with cl := upd st.cl i c' } (.pexpire k ms)).1, .none_)
